@@ -410,6 +410,18 @@ fn judge_index(n: usize, r: &mut Rng, l: &mut Local) {
         ps.push(r.f64());
         ps.push(r.below(n as u64 + 1) as f64 / n as f64);
     }
+    for bad in [-0.5, 1.0 + 2f64.powi(-52), 2.0, f64::NAN, f64::INFINITY, f64::NEG_INFINITY] {
+        l.eval();
+        match call(|| quantile::Stats::new(n).index(bad)) {
+            Out::Err(ErrFam::InvalidQuantile, _) => l.count("Stats::index rejects p outside [0,1]"),
+            other => l.violation(
+                format!("Stats::index|outside-[0,1]|{}", if bad.is_nan() { "NaN" } else { "finite-or-inf" }),
+                "Stats::index accepts a position outside [0,1] (or answers with the wrong error)".to_string(),
+                json!({"what": "index", "n": n, "p": jf(bad)}),
+                json!({"n": n, "p": jf(bad), "observed": other.describe()}),
+            ),
+        }
+    }
     for p in ps {
         l.eval();
         l.count("Stats::index judged");
@@ -477,6 +489,7 @@ pub fn run(run: &Arc<Run>) {
     run.require(&[
         "ranks judged",
         "Stats::index judged",
+        "Stats::index rejects p outside [0,1]",
         "bracketing judged",
         "inadmissible rejected with documented error",
         "ambiguous_rank_cases",
